@@ -56,12 +56,16 @@
 #include "QXmppSaslManager_p.h"
 
 #include <QBuffer>
+#include <QPointer>
 #include <QCoreApplication>
 #include <QDomDocument>
 #include <QXmlStreamWriter>
 #include <QSslSocket>
 #include <QTcpServer>
 #include <QTcpSocket>
+#include <sys/wait.h>
+#include <unistd.h>
+
 #include <algorithm>
 #include <functional>
 #include <memory>
@@ -210,6 +214,52 @@ bool DummyE2ee::handleStanza(const QDomElement &el, const std::optional<QXmppE2e
     return true;
 }
 
+// a receiving device that fails (`write` returns -1) or takes only half of a block once `okBytes` have been stored
+class BadDevice : public QIODevice
+{
+public:
+    enum Mode { Fail, Short };
+    BadDevice(Mode m, qint64 okBytes, QObject *parent) : QIODevice(parent), mode(m), left(okBytes) { }
+    bool isSequential() const override { return true; }
+protected:
+    qint64 readData(char *, qint64) override { return -1; }
+    qint64 writeData(const char *, qint64 len) override
+    {
+        if (len <= left) { left -= len; return len; }
+        left = 0;
+        return mode == Fail ? -1 : len / 2;
+    }
+private:
+    Mode mode;
+    qint64 left;
+};
+
+// what the application does with an offered file: decision x receiving device, at once in the fileReceived slot or
+// later in the same event turn (the offer is pending in between)
+struct TransferPolicy {
+    enum Decision { Accept, AcceptUnwritable, Abort } decision = Accept;
+    enum Device { Good, Failing, ShortWriting } device = Good;
+    qint64 okBytes = 0;
+    bool deferred = false;
+    vector<QPointer<QXmppTransferJob>> pending;
+    void decide(QXmppTransferJob *j) const
+    {
+        if (decision == Abort) { j->abort(); return; }
+        QIODevice *dev;
+        if (decision == AcceptUnwritable) dev = new QBuffer(j);  // never opened: isWritable() is false
+        else if (device == Good) { dev = new QBuffer(j); dev->open(QIODevice::WriteOnly); }
+        else { dev = new BadDevice(device == Failing ? BadDevice::Fail : BadDevice::Short, okBytes, j); dev->open(QIODevice::WriteOnly); }
+        j->accept(dev);
+    }
+    void offered(QXmppTransferJob *j) { if (deferred) pending.push_back(j); else decide(j); }
+    void decidePending()
+    {
+        auto p = pending;
+        pending.clear();
+        for (auto &j : p) if (j) decide(j);
+    }
+};
+
 // a do-nothing extension placed before/between/after the managers: tells which manager consumed a stanza
 class Probe : public QXmppClientExtension
 {
@@ -256,6 +306,12 @@ static vector<MgrDef> &mgrDefs()
         { "transfer+decline", "QXmppTransferManager", [](TestClient *) { return new QXmppTransferManager; }, {} },
         { "transfer+job", "QXmppTransferManager", [](TestClient *) { return new QXmppTransferManager; }, {} },
         { "transfer+jobopen", "QXmppTransferManager", [](TestClient *) { return new QXmppTransferManager; }, {} },
+        // ... accepted with a device that is not writable; the opened job's device fails / takes half a block; the job has
+        // finished because its device failed to store a block
+        { "transfer+acceptro", "QXmppTransferManager", [](TestClient *) { return new QXmppTransferManager; }, {} },
+        { "transfer+jobopen-fail", "QXmppTransferManager", [](TestClient *) { return new QXmppTransferManager; }, {} },
+        { "transfer+jobopen-short", "QXmppTransferManager", [](TestClient *) { return new QXmppTransferManager; }, {} },
+        { "transfer+jobfailed", "QXmppTransferManager", [](TestClient *) { return new QXmppTransferManager; }, {} },
         // a room registered under OTHER_FULL that has asked for its permission lists (needs a connected socket)
         { "muc+room", "QXmppMucManager", [](TestClient *) { return new QXmppMucManager; }, {} },
         { "uploadRequest", "QXmppUploadRequestManager", [](TestClient *) { return new QXmppUploadRequestManager; }, {} },
@@ -592,6 +648,7 @@ struct Built {
     QXmppRegistrationManager *reg = nullptr;
     QXmppBookmarkManager *bm = nullptr;
     string mucId;  // an id in the joined room's permissionsQueue
+    std::shared_ptr<TransferPolicy> transfer;  // what the application does with offered files
 };
 
 static QDomElement parseStanza(const QString &xml, QDomDocument &doc)
@@ -655,38 +712,57 @@ static Built build(const vector<string> &order, int mode = 0)
         if (baseKey(order[i]) == "transfer" && order[i] != "transfer") {
             auto *tm = static_cast<QXmppTransferManager *>(e);
             const string k = order[i];
-            const bool accept = k != "transfer+decline";
-            const bool job = k == "transfer+job" || k == "transfer+jobopen";
+            static unsigned builds = 0;
+            auto pol = std::make_shared<TransferPolicy>();
+            pol->decision = k == "transfer+decline" ? TransferPolicy::Abort : k == "transfer+acceptro" ? TransferPolicy::AcceptUnwritable : TransferPolicy::Accept;
+            pol->device = (k == "transfer+jobopen-fail" || k == "transfer+jobfailed") ? TransferPolicy::Failing :
+                k == "transfer+jobopen-short" ? TransferPolicy::ShortWriting : TransferPolicy::Good;
+            pol->deferred = (builds++ % 2) == 1;  // every other client keeps the offer pending until the slot has returned
+            b.transfer = pol;
+            const bool job = k.find("+job") != string::npos;
             if (job) tm->setSupportedMethods(QXmppTransferJob::InBandMethod);
-            QObject::connect(tm, &QXmppTransferManager::fileReceived, tm, [accept](QXmppTransferJob *j) {
-                if (accept) {
-                    auto *buf = new QBuffer(j);
-                    buf->open(QIODevice::WriteOnly);
-                    j->accept(buf);
-                } else {
-                    j->abort();
-                }
-            });
-            if (job) after.push_back([c, k]() {
-                auto expectOne = [c](const char *what, const char *type) {
-                    int n = 0;
-                    for (auto &pkt : c->sent) if (pkt.contains(QStringLiteral("<iq")) && pkt.contains(QStringLiteral("type=\"%1\"").arg(QString::fromLatin1(type)))) n++;
-                    if (n != 1) { fprintf(stderr, "harness bug: transfer job set-up (%s) did not get one %s\n", what, type); exit(3); }
+            QObject::connect(tm, &QXmppTransferManager::fileReceived, tm, [pol](QXmppTransferJob *j) { pol->offered(j); });
+            if (job) after.push_back([c, k, pol]() {
+                // the set-up itself consists of requests: each must get exactly one reply of the expected type
+                auto expectOne = [c, &k](const char *what, const char *type) {
+                    int n = 0, nOther = 0;
+                    string dump;
+                    for (auto &pkt : c->sent) {
+                        if (!pkt.startsWith(QStringLiteral("<iq"))) continue;
+                        dump += pkt.toStdString() + " ";
+                        if (pkt.contains(QStringLiteral("type=\"%1\"").arg(QString::fromLatin1(type)))) n++; else nOther++;
+                    }
+                    if (n == 1 && nOther == 0) { oraclePass()++; return; }
+                    static std::set<string> reported;
+                    string key = "C08:transfer-setup:" + k + ":" + what;
+                    if (reported.insert(key).second)
+                        oracleFail(key, string("setting up the state, the ") + what + " request got " + std::to_string(n) + " " + type + " replies and " +
+                                   std::to_string(nOther) + " others; sent: " + (dump.empty() ? "(nothing)" : dump));
                 };
-                QDomDocument d1, d2;
-                c->sent.clear();
-                c->recvStream(parseStanza(QString::fromStdString(string("<iq type='set' from='") + OTHER_FULL + "' id='offer1'>"
+                auto inject = [c, pol](const string &xml) {
+                    QDomDocument d;
+                    c->sent.clear();
+                    c->recvStream(parseStanza(QString::fromStdString(xml), d));
+                    pol->decidePending();
+                    QCoreApplication::sendPostedEvents();
+                };
+                inject(string("<iq type='set' from='") + OTHER_FULL + "' id='offer1'>"
                     "<si xmlns='http://jabber.org/protocol/si' id='jobsid' mime-type='text/plain' profile='http://jabber.org/protocol/si/profile/file-transfer'>"
                     "<file xmlns='http://jabber.org/protocol/si/profile/file-transfer' name='t.txt' size='25'/>"
                     "<feature xmlns='http://jabber.org/protocol/feature-neg'><x xmlns='jabber:x:data' type='form'><field var='stream-method' type='list-single'>"
-                    "<option><value>http://jabber.org/protocol/ibb</value></option></field></x></feature></si></iq>"), d1));
-                QCoreApplication::sendPostedEvents();
+                    "<option><value>http://jabber.org/protocol/ibb</value></option></field></x></feature></si></iq>");
                 expectOne("offer", "result");
-                if (k == "transfer+jobopen") {
-                    c->sent.clear();
-                    c->recvStream(parseStanza(QString::fromStdString(string("<iq type='set' from='") + OTHER_FULL + "' id='open1'>"
-                        "<open xmlns='http://jabber.org/protocol/ibb' sid='jobsid' block-size='4096' stanza='iq'/></iq>"), d2));
+                if (k != "transfer+job") {
+                    inject(string("<iq type='set' from='") + OTHER_FULL + "' id='open1'>"
+                        "<open xmlns='http://jabber.org/protocol/ibb' sid='jobsid' block-size='4096' stanza='iq'/></iq>");
                     expectOne("open", "result");
+                }
+                if (k == "transfer+jobfailed") {
+                    // the device refuses the block: the job terminates itself, the block is acknowledged all the same
+                    inject(string("<iq type='set' from='") + OTHER_FULL + "' id='data1'>"
+                        "<data xmlns='http://jabber.org/protocol/ibb' sid='jobsid' seq='0'>aGVsbG8=</data></iq>");
+                    expectOne("data", "result");
+                    QCoreApplication::processEvents();
                 }
             });
         }
@@ -809,6 +885,7 @@ static void runCell(Built &b, const Cell &cell, Rng &rng, bool emitLine = true)
     if (cell.negotiating) { negKind = c->setNegotiating(rng.below(6)); stat("negotiating." + negKind); }
     c->sent.clear(); c->errors = 0; c->reached = -1;
     if (cell.entry == 'e') c->recvDecrypted(stanza); else c->recvStream(stanza);
+    if (b.transfer) b.transfer->decidePending();  // the application decides about an offer it kept pending
     QCoreApplication::sendPostedEvents();
 
     // --- observe
@@ -1020,6 +1097,105 @@ static void runConfig(const Config &cfg, const vector<Payload> &cat, bool fullCa
     if (mode == 2) stat("configs_after_disconnect");
 }
 
+// Whole incoming in-band transfers, every request counted by id (oracle only; the states they pass through are the
+// configurations "transfer+…" above): SI offer -> <open/> -> three <data/> -> <close/> -> a late <data/> -> an <open/> for
+// an unknown session, for every decision (accept writable / accept unwritable / abort), taken in the slot or after it
+// returned, and every receiving device (good / fails on the 2nd block / takes half of the 2nd block).
+static void runTransferSequences()
+{
+    struct Step { const char *name; string id; string xml; };
+    const string from = OTHER_FULL;
+    auto iq = [&](const string &id, const string &child) { return "<iq type='set' from='" + from + "' id='" + id + "'>" + child + "</iq>"; };
+    const vector<Step> steps = {
+        { "offer", "seq-o1", iq("seq-o1", "<si xmlns='http://jabber.org/protocol/si' id='seqsid' mime-type='text/plain' profile='http://jabber.org/protocol/si/profile/file-transfer'>"
+            "<file xmlns='http://jabber.org/protocol/si/profile/file-transfer' name='t.txt' size='15'/>"
+            "<feature xmlns='http://jabber.org/protocol/feature-neg'><x xmlns='jabber:x:data' type='form'><field var='stream-method' type='list-single'>"
+            "<option><value>http://jabber.org/protocol/ibb</value></option></field></x></feature></si>") },
+        { "open", "seq-p1", iq("seq-p1", "<open xmlns='http://jabber.org/protocol/ibb' sid='seqsid' block-size='4096' stanza='iq'/>") },
+        { "data0", "seq-d0", iq("seq-d0", "<data xmlns='http://jabber.org/protocol/ibb' sid='seqsid' seq='0'>aGVsbG8=</data>") },
+        { "data1", "seq-d1", iq("seq-d1", "<data xmlns='http://jabber.org/protocol/ibb' sid='seqsid' seq='1'>aGVsbG8=</data>") },
+        { "data2", "seq-d2", iq("seq-d2", "<data xmlns='http://jabber.org/protocol/ibb' sid='seqsid' seq='2'>aGVsbG8=</data>") },
+        { "close", "seq-c1", iq("seq-c1", "<close xmlns='http://jabber.org/protocol/ibb' sid='seqsid'/>") },
+        { "late-data", "seq-d3", iq("seq-d3", "<data xmlns='http://jabber.org/protocol/ibb' sid='seqsid' seq='3'>aGVsbG8=</data>") },
+        { "open-unknown", "seq-p2", iq("seq-p2", "<open xmlns='http://jabber.org/protocol/ibb' sid='nosuchsid' block-size='4096'/>") },
+    };
+    static const char *decN[] = { "accept", "accept-unwritable", "abort" }, *devN[] = { "good", "failing", "short" };
+    for (int dec = 0; dec < 3; dec++) for (int deferred = 0; deferred < 2; deferred++) for (int dev = 0; dev < 3; dev++) {
+        if (dec != 0 && dev != 0) continue;
+        string scenario = string(decN[dec]) + (deferred ? "-later" : "-inslot") + "-" + devN[dev];
+        // each scenario runs in a child process: if the library crashes, that is reported as a failure of the step it died in
+        int fds[2];
+        if (pipe(fds) != 0) { fprintf(stderr, "harness: pipe failed\n"); exit(3); }
+        fflush(stdout);
+        pid_t pid = fork();
+        if (pid < 0) { fprintf(stderr, "harness: fork failed\n"); exit(3); }
+        if (pid == 0) {
+            close(fds[0]);
+            Built b = build({ "transfer" });
+            TestClient *c = b.c.get();
+            auto *tm = c->findExtension<QXmppTransferManager>();
+            tm->setSupportedMethods(QXmppTransferJob::InBandMethod);
+            auto pol = std::make_shared<TransferPolicy>();
+            pol->decision = TransferPolicy::Decision(dec); pol->device = TransferPolicy::Device(dev); pol->okBytes = 5; pol->deferred = deferred;
+            QObject::connect(tm, &QXmppTransferManager::fileReceived, tm, [pol](QXmppTransferJob *j) { pol->offered(j); });
+            c->sent.clear();
+            for (size_t k = 0; k < steps.size(); k++) {
+                char ch = char('0' + k);
+                if (write(fds[1], &ch, 1) != 1) _exit(4);
+                QDomDocument d;
+                c->recvStream(parseStanza(QString::fromStdString(steps[k].xml), d));
+                pol->decidePending();
+                QCoreApplication::sendPostedEvents();
+                QCoreApplication::processEvents();
+            }
+            string dump;
+            std::map<string, int> count;
+            for (auto &pkt : c->sent) {
+                QDomDocument d;
+                if (!d.setContent(pkt, true)) continue;
+                auto e = d.documentElement();
+                auto ty = e.attribute(QStringLiteral("type"));
+                if (e.tagName() != QStringLiteral("iq") || (ty != QStringLiteral("result") && ty != QStringLiteral("error"))) continue;
+                count[e.attribute(QStringLiteral("id")).toStdString()]++;
+                dump += pkt.toStdString() + " ";
+            }
+            long long pass = 0;
+            for (auto &st : steps) {
+                if (count[st.id] == 1) { pass++; continue; }
+                string hist;
+                for (auto &x : steps) { hist += x.xml + " "; if (&x == &st) break; }
+                oracleFail("C08:transfer-seq:" + scenario + ":" + st.name, "request id " + st.id + " got " + std::to_string(count[st.id]) +
+                           " replies; application: " + scenario + "; received in order: " + hist + " all replies sent: " + dump);
+            }
+            printf("O PASS %lld\nS transfer_sequence_requests %zu\n", pass, steps.size());
+            fflush(stdout);
+            _exit(0);
+        }
+        close(fds[1]);
+        string progress;
+        char buf[16];
+        ssize_t got;
+        while ((got = read(fds[0], buf, sizeof buf)) > 0) progress.append(buf, size_t(got));
+        close(fds[0]);
+        int status = 0;
+        waitpid(pid, &status, 0);
+        stat("transfer_sequences");
+        if (!(WIFEXITED(status) && WEXITSTATUS(status) == 0)) {
+            size_t k = progress.empty() ? 0 : size_t(progress.back() - '0');
+            string hist;
+            for (size_t x = 0; x <= k && x < steps.size(); x++) hist += steps[x].xml + " ";
+            // one key per decision: the timing of the decision and the device do not matter for a crash
+            static std::set<string> reported;
+            string key = string("C08:transfer-seq:") + decN[dec] + ":crash";
+            if (reported.insert(key).second)
+                oracleFail(key, string("the client process died (") + (WIFSIGNALED(status) ? "signal " + std::to_string(WTERMSIG(status)) : "exit " + std::to_string(WEXITSTATUS(status))) +
+                           ") while handling request '" + (k < steps.size() ? steps[k].name : "?") + "', which therefore got no reply; application: " + scenario +
+                           "; received in order: " + hist);
+            stat("transfer_sequences_crashed");
+        }
+    }
+}
+
 int main(int argc, char **argv)
 {
     QCoreApplication app(argc, argv);
@@ -1086,6 +1262,8 @@ int main(int argc, char **argv)
         }
     }
 
+    runTransferSequences();
+
     int freshEvery = thorough ? 1 : 1;
     // no extensions
     runConfig({ "none", {} }, cat, true, thorough, rng, freshEvery);
@@ -1118,7 +1296,7 @@ int main(int argc, char **argv)
         // other states of the stateful managers
         if (i % 2) for (auto &k : order) if (k == "blocking") k = "blocking+sub";
         if (i % 3 == 1) for (auto &k : order) if (k == "transfer") k = "transfer+jobopen";
-        if (i % 3 == 2) for (auto &k : order) if (k == "transfer") k = "transfer+accept";
+        if (i % 3 == 2) for (auto &k : order) if (k == "transfer") k = i % 2 ? "transfer+acceptro" : "transfer+accept";
         runConfig({ "all#" + std::to_string(i), order }, cat, true, thorough, rng, thorough ? 1 : 50);
     }
     // random small sets in random order
